@@ -28,10 +28,12 @@ type ParserZH struct {
 	nestDepth int
 }
 
-// maxNestDepth - how deep statements and expressions may be nested. The parser descends
-// recursively: without a bound, input made of millions of opening brackets would exhaust
-// the Go stack (which ends the host process) instead of being reported as a syntax error
-const maxNestDepth = 2000
+// maxNestDepth - how deep statements and expressions may be nested, and how long one chain
+// of operands may be (the tree of a chain is as deep as the chain is long). The parser - and
+// everything that walks the tree afterwards - descends recursively: without a bound, input
+// made of millions of opening brackets or operators would exhaust the Go stack (which ends
+// the host process) instead of being reported as a syntax error
+const maxNestDepth = 5000
 
 // enterNesting - to be deferred as `defer p.enterNesting()()`
 func (p *ParserZH) enterNesting() func() {
